@@ -276,6 +276,35 @@ theorem pw_shape (c : Cfg) (m : M) (a : Nat) (s : Stat) :
     have hmv : movedF c a s m.waiting = [] := by simp [movedF, hs]
     exact ⟨[], by simp [afterPass1, hmv], rfl, rfl, rfl, by simp⟩
 
+/-- as `pw_shape`, recording why each query was sent: its plug was not "active" after the first pass -/
+theorem pw_shape' (c : Cfg) (m : M) (a : Nat) (s : Stat) :
+    ∃ added, (processWaiters c m a s).active = m.active ++ added ∧
+      (processWaiters c m a s).delayed = m.delayed ∧ (processWaiters c m a s).st = m.st ∧
+      (processWaiters c m a s).out = m.out ++ linesF c a s m.waiting ∧
+      (processWaiters c m a s).waiting = keepF c a s m.waiting ∧
+      (∀ j ∈ added, s = .on ∧ ((j ∈ m.waiting ∧ parentOf c j.plug = some a) ∨
+        (∃ w ∈ m.waiting, a ∈ ancUp c w.plug ∧ parentOf c w.plug ≠ some a ∧ j = query (childOf c w.plug a) ∧
+          plugActive { m with active := m.active ++ movedF c a .on m.waiting } (childOf c w.plug a) w.cmd = false))) := by
+  rw [processWaiters_eq']
+  by_cases hs : s = .on
+  · subst hs
+    simp only [ne_eq, not_true_eq_false, if_false]
+    obtain ⟨qs, e, hq1, _⟩ := pass2_fold' c a (keepF c a .on m.waiting) (afterPass1 c m a .on)
+    rw [e]
+    refine ⟨movedF c a .on m.waiting ++ qs, by simp [afterPass1], rfl, rfl, by simp [afterPass1, linesF], rfl, ?_⟩
+    intro j hj
+    refine ⟨trivial, ?_⟩
+    rcases List.mem_append.1 hj with hj | hj
+    · have := mem_movedF_on.1 hj; exact Or.inl ⟨this.1, this.2.2⟩
+    · obtain ⟨w, hwk, hd, rfl, hpa⟩ := hq1 j hj
+      have := mem_keepF_on.1 hwk
+      refine Or.inr ⟨w, this.1, isDesc_iff.1 hd, this.2 (isDesc_iff.1 hd), rfl, ?_⟩
+      unfold plugActive at hpa ⊢
+      simpa [afterPass1] using hpa
+  · simp only [hs, ne_eq, not_false_eq_true, if_true]
+    have hmv : movedF c a s m.waiting = [] := by simp [movedF, hs]
+    exact ⟨[], by simp [afterPass1, hmv], rfl, rfl, rfl, rfl, by simp⟩
+
 section
 variable {α : Type} [DecidableEq α] (lab : Nat → α) (ll : Line → α)
 
